@@ -213,7 +213,17 @@ def work_numbers(job):
     return acc.result()
 
 
-FORMATS = ['0', '0.0', '0.00', '#', '#.#', '#.##', '#,##0', '#,##0.00', '0%', '0.0%', '0.00%', '000', '0.000', '#,##0.0']
+FORMATS = ['0', '0.0', '0.00', '#', '#.#', '#.##', '#,##0', '#,##0.00', '0%', '0.0%', '0.00%', '000', '0.000', '#,##0.0',
+           '0,000', '000,000', '0,000.00', '0,000%']
+
+
+def group3(digits):
+    """thousands separators every three digits from the right (padding zeros are grouped like any digit)"""
+    out = ''
+    while len(digits) > 3:
+        out = ',' + digits[-3:] + out
+        digits = digits[:-3]
+    return digits + out
 
 
 def fmt_expected(x, f):
@@ -240,7 +250,7 @@ def fmt_expected(x, f):
     ip, _, fp = s.partition('.')
     ip = ip.zfill(min_int)
     if group:
-        ip = f'{int(ip):,}' if int(ip) >= 1000 else ip
+        ip = group3(ip)
     out = sign + ip + ('.' + fp if decimals else '') + ('%' if pct else '')
     return out, r
 
@@ -321,7 +331,7 @@ def work_trim_ws(job):
 
 EXT_XS = [123456789012345.6, 1000000000000000.5, 1e21, 1e22, 1e23, 1e27, 5e27, 1e28, 1e300, 1.7976931348623157e308, 5e-324, 1e-300,
           0.1, 0.1 + 0.2, 2.675, 0.285, 1.005, 1234567.891]
-EXT_FORMATS = ['0', '0.00', '#,##0', '#,##0.00', '0%', '0.00%', '0.' + '0' * 15, '0.' + '0' * 18, '0.' + '0' * 25, '0.' + '0' * 40, '000']
+EXT_FORMATS = ['0', '0.00', '#,##0', '#,##0.00', '0,000', '0%', '0.00%', '0.' + '0' * 15, '0.' + '0' * 18, '0.' + '0' * 25, '0.' + '0' * 40, '000']
 
 
 def fmt_exact(x, f):
@@ -341,8 +351,8 @@ def fmt_exact(x, f):
         sign = '-' if r < 0 else ''
         ip, _, fp = f'{abs(r):.{decimals}f}'.partition('.')
         ip = ip.zfill(intpart.replace(',', '').replace('#', '').count('0'))
-        if ',' in intpart and len(ip) > 3:
-            ip = f'{int(ip):,}'
+        if ',' in intpart:
+            ip = group3(ip)
         return sign + ip + ('.' + fp if decimals else '') + ('%' if pct else '')
 
 
